@@ -308,8 +308,9 @@ Definition loose_hash_refs (fs : fsmap) : list (string * oid) :=
   flat_map (fun n => match flookup fs (PRef n) with Some (Whole (DRef (RHash o))) => [(n, o)] | _ => [] end)
            (ssort (ref_names fs)).
 
-(* PackRefs: create packed-refs when missing; with loose refs: all refs into a
-   temp file, rename over packed-refs, then delete the loose files *)
+(* PackRefs: create packed-refs when missing; with loose refs: all hash refs
+   into a temp file, rename over packed-refs, then delete the loose files of
+   the hash references (symbolic references stay loose, as with git pack-refs) *)
 Definition op_packrefs (fs : fsmap) : list mutation :=
   (if fexists fs PPacked then [] else [MCreate PPacked])
   ++ match ref_names fs with
@@ -318,8 +319,8 @@ Definition op_packrefs (fs : fsmap) : list mutation :=
        let t := PTmp TPRefs 0 in
        let old := match packed_refs fs with Some l => l | None => [] end in
        let all := loose_hash_refs fs ++ filter (fun e => negb (is_loose_name fs (fst e))) old in
-       [MTemp t; MWrite t (DPackedRefs all); MRename t PPacked;
-        MRemoveSet (map PRef (ssort (ref_names fs)))]
+       [MTemp t] ++ (match all with [] => [] | _ => [MWrite t (DPackedRefs all)] end) ++ [MRename t PPacked]
+       ++ match map fst (loose_hash_refs fs) with [] => [] | ns => [MRemoveSet (map PRef ns)] end
      end.
 
 Definition op_setindex (es : list (bool * oid)) : list mutation :=
